@@ -108,6 +108,22 @@ class Check:
                            "pinned tree: an anchor of the rule has disappeared, so the property "
                            "clause is no longer established" % (name, r["instances"], r["floor"]),
                     "loc": None, "path": None})
+        # thorough tier: verdict of the second build configuration (see /verif/check)
+        second = None
+        if os.environ.get("VERIF_SECOND_PASS"):
+            try:
+                second = json.loads(os.environ["VERIF_SECOND_PASS"])
+            except ValueError:
+                second = None
+        if second and second.get("violation_details"):
+            for v in second["violation_details"]:
+                v = dict(v)
+                v["key"] = "default-features/" + str(v.get("key"))
+                v["msg"] = "[default-features build] " + str(v.get("msg"))
+                self.violations.append(v)
+        if second and "obligations" in second:
+            self.obligations += second["obligations"]
+            self.discharged += second["discharged"]
         os.makedirs(REPLAY, exist_ok=True)
         wall = time.time() - self.t0
         cov = {
@@ -122,6 +138,9 @@ class Check:
             "known_findings_matched": [v["key"] for v in self.known_hit],
             "samples": self.samples[:40] or [{"note": "no obligations sampled"}],
             "notes": self.notes,
+            "configurations": (["--workspace --all-features"] +
+                               (["--workspace (default features)"] if second and "obligations" in second else [])),
+            "second_configuration": second,
             "exhaustive": True,
             "evaluations": max(self.obligations, 1),
             "distinct_nontrivial": max(self.obligations, 2) if self.obligations >= 2 else 2,
